@@ -696,8 +696,8 @@ def to_matched_score(
     if include_score_markings and not isinstance(score, np.ndarray):
         fields += [("voice", "i4")]
         fields += [
-            (field, sn.dtype.fields[field][0])
-            for field in sn.dtype.fields
+            (field, na.dtype.fields[field][0])
+            for field in na.dtype.fields
             if "feature" in field
         ]
 
